@@ -413,5 +413,7 @@ pub const SIGS: &[Sig] = &[
 ];
 
 pub fn classify_sql(c: &SqlCase, ev: &Ev, _msg: &str) -> Option<&'static str> {
-    SIGS.iter().find(|s| (s.pred)(c, ev)).map(|s| s.id)
+    // every signature the case meets; an OPEN finding wins over a fixed one (see runner::is_open_id)
+    let hits: Vec<&Sig> = SIGS.iter().filter(|s| (s.pred)(c, ev)).collect();
+    hits.iter().find(|s| crate::runner::is_open_id(s.id)).or(hits.first()).map(|s| s.id)
 }
